@@ -193,5 +193,92 @@ def holdsStep (r : Rule) (before after : HMap) : Bool :=
     deviate from the documented meaning hold a `%name` rule. -/
 def renameSeen (rs : List Rule) : Bool := rs.any (fun r => match r with | .rename _ => true | _ => false)
 
+/-! ### The request modifier stack around the rules, and the `User-Agent` line of the written request
+
+  `HTTPProxy.middlewareStack` (`http_proxy.go`) registers, in the inner group of the httpspec stack,
+  first the user supplied request modifiers (`hp.config.RequestModifiers`: for a non-CONNECT request
+  the `--header` list, for a CONNECT the `--connect-header` list), then `hp.setBasicAuth`, then
+  `setEmptyUserAgent`.  The request is afterwards written by net/http's `Request.write`, which takes
+  the `User-Agent` line out of the map's hands:
+
+      userAgent := defaultUserAgent                       // "Go-http-client/1.1"
+      if r.Header.has("User-Agent") { userAgent = r.Header.Get("User-Agent") }
+      if userAgent != "" { … TrimString(headerNewlineToSpace.Replace(userAgent)) … "User-Agent: %s\r\n" }
+
+  The ORDER of the three stages is what makes `-User-Agent` mean "no User-Agent line" (and not "the
+  library's default") and what lets a rule-added `Authorization` win over configured site
+  credentials; it is a parameter here, so that theorems can say which order is needed. -/
+
+/-- "User-Agent" -/
+def uaKey : Bytes := [85, 115, 101, 114, 45, 65, 103, 101, 110, 116]
+/-- "Authorization" -/
+def authKey : Bytes := [65, 117, 116, 104, 111, 114, 105, 122, 97, 116, 105, 111, 110]
+/-- net/http `defaultUserAgent` = "Go-http-client/1.1" -/
+def goDefaultUA : Bytes := [71, 111, 45, 104, 116, 116, 112, 45, 99, 108, 105, 101, 110, 116, 47, 49, 46, 49]
+
+/-- `http.Header.Get`: first value under the canonical key, "" when there is none -/
+def goGet1 (h : HMap) (n : Bytes) : Bytes := ((HMap.get h (canonicalKey n)).getD []).headD []
+
+inductive Stage where
+  | userRules      -- `hp.config.RequestModifiers`: the rule list that applies to the message kind
+  | basicAuth      -- `hp.setBasicAuth`
+  | emptyUA        -- `setEmptyUserAgent`
+  deriving DecidableEq, Repr
+
+/-- `setBasicAuth` on a non-CONNECT request; `cred` is the `Authorization` value of the
+    `--credentials` entry that matches the request URL (`none`: no entry matches, or CONNECT) -/
+def setBasicAuth (cred : Option Bytes) (h : HMap) : HMap :=
+  match cred with
+  | some a => if goGet1 h authKey == [] then goSet h authKey a else h
+  | none => h
+
+/-- `setEmptyUserAgent`: `if _, ok := req.Header["User-Agent"]; !ok { req.Header.Set("User-Agent", "") }` -/
+def setEmptyUserAgent (h : HMap) : HMap :=
+  if (HMap.get h uaKey).isNone then goSet h uaKey [] else h
+
+def runStage (cred : Option Bytes) (rs : List Rule) (h : HMap) : Stage → HMap
+  | .userRules => applyRules rs h
+  | .basicAuth => setBasicAuth cred h
+  | .emptyUA => setEmptyUserAgent h
+
+def runStack (order : List Stage) (cred : Option Bytes) (rs : List Rule) (h : HMap) : HMap :=
+  order.foldl (runStage cred rs) h
+
+/-- the order of `middlewareStack` -/
+def stackOrder : List Stage := [.userRules, .basicAuth, .emptyUA]
+
+/-- the order that looks equally plausible ("built-ins first, the user has the last word") and is wrong -/
+def builtinsFirst : List Stage := [.basicAuth, .emptyUA, .userRules]
+
+/-- `headerNewlineToSpace` -/
+def newlineToSpace (v : Bytes) : Bytes := v.map (fun c => if c == 10 || c == 13 then 32 else c)
+
+def isHTTPSpace (c : UInt8) : Bool := c == 32 || c == 9 || c == 10 || c == 13
+
+/-- `textproto.TrimString` -/
+def trimString (v : Bytes) : Bytes := ((v.dropWhile isHTTPSpace).reverse.dropWhile isHTTPSpace).reverse
+
+/-- the value of the `User-Agent` line `Request.write` puts on the wire for header map `h`
+    (`none`: no such line) -/
+def writtenUA (h : HMap) : Option Bytes :=
+  let ua := match HMap.get h uaKey with
+    | none => goDefaultUA
+    | some vs => vs.headD []
+  if ua == [] then none else some (trimString (newlineToSpace ua))
+
+/-- the `User-Agent` line for the values a map WITH the key holds under it: the first value, trimmed;
+    no line for no value or an empty first value -/
+def uaLineOfValues : Option (List Bytes) → Option Bytes
+  | some (v :: _) => if v = [] then none else some (trimString (newlineToSpace v))
+  | _ => none
+
+/-- what the next hop receives under `User-Agent` and `Authorization` for a request whose header map
+    is `h` when the rules run (`Authorization` is written from the map as it is) -/
+def hopUA (order : List Stage) (cred : Option Bytes) (rs : List Rule) (h : HMap) : Option Bytes :=
+  writtenUA (runStack order cred rs h)
+
+def hopAuthorization (order : List Stage) (cred : Option Bytes) (rs : List Rule) (h : HMap) : List Bytes :=
+  (HMap.get (runStack order cred rs h) authKey).getD []
+
 end C16
 end FwdVerif
